@@ -189,24 +189,32 @@ def _targets(n):
         elif isinstance(t, ast.Starred):
             add(t.value)
         elif isinstance(t, (ast.Subscript, ast.Attribute)):
-            # A[i] = v / A.x = v write into A; the index expression is only read
-            b = t.value
+            # A[i] = v / A.x = v write into A; the index expression is only read.  A store through an attribute (`self.x = v`, `self.x[i] = v`) is recorded
+            # against that attribute (`self.x`) so that it does not count as a change of every other attribute of the object
+            b = t
+            first_attr = None
             while isinstance(b, (ast.Subscript, ast.Attribute)):
+                if isinstance(b, ast.Attribute) and isinstance(b.value, ast.Name):
+                    first_attr = b.attr
                 b = b.value
             if isinstance(b, ast.Name):
-                out.append(b)
+                if first_attr is not None:
+                    out.append(ast.copy_location(ast.Name(id=f"{b.id}.{first_attr}", ctx=ast.Store()), b))
+                else:
+                    out.append(b)
     for t in ts:
         add(t)
     return out
 
 
-def inline_locals(f: FuncInfo, e: ast.expr, depth: int = 5) -> ast.expr:
+def inline_locals(f: FuncInfo, e: ast.expr, depth: int = 5, unpack: bool = False) -> ast.expr:
     """a copy of e in which every local name that is bound exactly once in f (by a plain assignment, not a loop / with / augmented assignment, not a parameter) is replaced,
     recursively, by the expression it was bound to: the name-free form of e.  Names bound several times, parameters and loop variables stay.
     A temporary is only replaced when that cannot change what is read: no name its expression reads is bound or written into between the temporary's assignment and
     the use (`t = d[q]; d = ...; use(t)` keeps `t`)."""
     import copy
-    cache = getattr(f, "_sa_single", None)
+    cache_name = "_sa_single_unpack" if unpack else "_sa_single"
+    cache = getattr(f, cache_name, None)
     if cache is None:
         binds: Dict[str, List[ast.AST]] = {}
         for n in f.body_nodes():
@@ -214,9 +222,23 @@ def inline_locals(f: FuncInfo, e: ast.expr, depth: int = 5) -> ast.expr:
                 for x in _targets(n) if isinstance(n, (ast.Assign, ast.AugAssign, ast.AnnAssign, ast.For)) else [y for y in ast.walk(n) if isinstance(y, ast.Name) and isinstance(y.ctx, ast.Store)]:
                     binds.setdefault(x.id, []).append(n)
         single = {k: v[0] for k, v in binds.items() if len(v) == 1 and isinstance(v[0], ast.Assign) and len(v[0].targets) == 1 and isinstance(v[0].targets[0], ast.Name) and k not in f.all_params}
+        # a, b = X  (X not a tuple display) binds a to X[0], b to X[1];  a, b = p, q binds elementwise
+        for k, v in (binds.items() if unpack else ()):
+            if len(v) == 1 and isinstance(v[0], ast.Assign) and len(v[0].targets) == 1 and isinstance(v[0].targets[0], (ast.Tuple, ast.List)) and k not in f.all_params and k not in single:
+                tg = v[0].targets[0]
+                if all(isinstance(e_, ast.Name) for e_ in tg.elts):
+                    pos = [e_.id for e_ in tg.elts].index(k)
+                    val = v[0].value
+                    if isinstance(val, (ast.Tuple, ast.List)) and len(val.elts) == len(tg.elts) and not any(isinstance(e_, ast.Starred) for e_ in val.elts):
+                        item = val.elts[pos]
+                    else:
+                        item = ast.copy_location(ast.Subscript(value=val, slice=ast.Constant(value=pos), ctx=ast.Load()), val)
+                    syn = ast.copy_location(ast.Assign(targets=[ast.Name(id=k, ctx=ast.Store())], value=item), v[0])
+                    single[k] = syn
+                    binds[k] = [syn]
         loops = [n for n in f.body_nodes() if isinstance(n, (ast.For, ast.While))]
         cache = (single, binds, loops)
-        f._sa_single = cache
+        setattr(f, cache_name, cache)
     single, binds, loops = cache
     use_line = getattr(e, "lineno", None)
 
@@ -224,7 +246,17 @@ def inline_locals(f: FuncInfo, e: ast.expr, depth: int = 5) -> ast.expr:
         """may the single-assignment temporary `name` be replaced by its expression at the use?"""
         a = single[name]
         la = a.lineno
-        for y in {n.id for n in ast.walk(a.value) if isinstance(n, ast.Name)}:
+        reads = set()
+        attr_bases = {id(n.value) for n in ast.walk(a.value) if isinstance(n, ast.Attribute) and isinstance(n.value, ast.Name)}
+        for n in ast.walk(a.value):
+            if isinstance(n, ast.Attribute) and isinstance(n.value, ast.Name):
+                reads.add(n.value.id)
+                reads.add(f"{n.value.id}.{n.attr}")
+            elif isinstance(n, ast.Name) and id(n) not in attr_bases:
+                # the object itself is read (passed on, indexed): any attribute store into it may matter
+                reads.add(n.id)
+                reads.update(k for k in binds if k.startswith(n.id + "."))
+        for y in reads:
             for b in binds.get(y, ()):
                 if b is a:
                     continue
@@ -244,7 +276,7 @@ def inline_locals(f: FuncInfo, e: ast.expr, depth: int = 5) -> ast.expr:
 
         def visit_Name(self, n):
             if isinstance(n.ctx, ast.Load) and n.id in single and self.d > 0 and fresh(n.id):
-                return T(self.d - 1).visit(copy.deepcopy(single[n.id].value))
+                return T(self.d - 1).visit(copy.deepcopy(single[n.id].value))   # (names inside keep the positions of the binding statement)
             return n
     return T(depth).visit(copy.deepcopy(e))
 
@@ -261,9 +293,10 @@ def see_name(f: FuncInfo, e: ast.expr) -> ast.expr:
     return e
 
 
-def kwr(f: FuncInfo, call: ast.Call, callee: Optional[FuncInfo] = None) -> Dict[str, str]:
-    """keyword (bound) arguments of a call as name-free normalised text: single-assignment locals inlined, np.array(...) wrappers stripped"""
-    return {k: norm_text(strip_np_array(inline_locals(f, v))) for k, v in kw(call, callee).items()}
+def kwr(f: FuncInfo, call: ast.Call, callee: Optional[FuncInfo] = None, unpack: bool = False) -> Dict[str, str]:
+    """keyword (bound) arguments of a call as name-free normalised text: single-assignment locals inlined, np.array(...) wrappers stripped
+    (unpack: also names bound by a tuple assignment `a, b = X`, which become X[0], X[1])"""
+    return {k: norm_text(strip_np_array(inline_locals(f, v, unpack=unpack)), limit=2000) for k, v in kw(call, callee).items()}
 
 
 class _NoKw(ast.NodeTransformer):
